@@ -25,6 +25,8 @@ Init == c \in { r \in [kind : Kinds, renamed : BOOLEAN, prefix : Prefixes, secon
 Next == UNCHANGED c
 \* ident: the Rust identifier of the target. Protocol / Type are reserved words of Swift (the backend escapes them with back-ticks,
 \* which are not part of the name): escaping and prefixing must commute, so that definition and references still agree
+\* PreTarget: the identifier itself begins with the characters of the configured prefix (Pre): the prefix is still applied - definition and
+\* references agree on PrePreTarget. kind jvm_inline: a newtype annotated typeshare(kotlin = "JvmInline") (Kotlin: an inline value class)
 Target == [ident |-> c.ident, rename |-> IF c.renamed THEN c.ident \o "Renamed" ELSE ""]
 Second == [ident |-> "Second", rename |-> IF c.second_renamed THEN "SecondRenamed" ELSE ""]
 Emit == PrintT(<<"REPLAY", ToJson([case |-> c, target |-> Target, second |-> Second,
